@@ -40,7 +40,7 @@ class C17(Prop):
         "(incl. empty lists), \\5c and \\5C, optional explicit kind/usage, repeated extensions, the quoted SYNTAX variant "
         "of Active Directory, lower-case x- extension prefix; expected fields = the value the sentence was generated "
         "from, cross-checked by an independent reference parser; plus the totality clause on mutated / random strings "
-        "(only ValueError may escape); compared with the extracted model; non-trivial = any sentence"
+        "(only ValueError may escape); compared with the extracted model; a quarter of the sentences are followed by a sibling differing in one space run inside a quoted string; every from_string is made twice with the first result modified in between; non-trivial = any sentence"
     )
 
     def corpus(self):
